@@ -5,6 +5,7 @@ import SageModel.Model.C17
 
 `mgf    fid h:text [k (h:token 0|1 u32)…] [m codepoint…] | ok [n spectrum…] | err | err:utf8 | panic`
 `mgfraw` — same format (the generator differs: mutated / hand-made bytes, possibly invalid UTF-8).
+`mgffile fid style h:text [table] [codepoints] | file <reply> direct <reply>` — the file route (`read_spectra`).
 
 The model (`parseText`) runs on the decoded text at `ν := Float32`; `str::parse::<f32>` is the token
 table of the request (the driver never parses decimal text), `char::is_numeric` is "ASCII digit or
@@ -135,20 +136,16 @@ def lookup (tbl : List (String × Option Float32)) (dflt : Option Float32) (t : 
 def renderReply (fid : Nat) (l : List (Spectrum Float32)) : String :=
   "ok " ++ outList (fun s => renderSpec (toI fid s)) l
 
-def handleMgf (args impl : List String) : Option Reply := do
-  let (fid, raw, tblRaw, nums) ← run (do
-    let fid ← nat
-    let raw ← bytes
-    let tbl ← list (do let t ← bytes; let v ← opt nat; pure (t, v))
-    let nums ← list nat
-    pure (fid, raw, tbl, nums)) args
-  let implS := " ".intercalate impl
+/-- everything the driver derives from the request's document: the model's reply, and the spec
+verdict as a function of the implementation's reply tokens -/
+def evalDoc (fid : Nat) (raw : List UInt8) (tblRaw : List (List UInt8 × Option Nat)) (nums : List Nat) :
+    Option (String × (List String → String)) :=
   match String.fromUTF8? (ByteArray.mk raw.toArray) with
   | none =>
     -- `read_to_string` fails before the reader is called
-    let spec := if impl == ["panic"] then "bad:panic" else if impl == ["err:utf8"] then "ok" else "bad:accepted_invalid_utf8"
-    pure (exact "err:utf8" implS spec)
-  | some text =>
+    some ("err:utf8", fun impl =>
+      if impl == ["panic"] then "bad:panic" else if impl == ["err:utf8"] then "ok" else "bad:accepted_invalid_utf8")
+  | some text => do
     let tbl ← tblRaw.mapM fun (t, v) => do
       let s ← String.fromUTF8? (ByteArray.mk t.toArray)
       pure (s, v.map fun b => Float32.ofBits b.toUInt32)
@@ -159,10 +156,10 @@ def handleMgf (args impl : List String) : Option Reply := do
     let doc' := classifyText (lookup tbl (some (Float32.ofBits 0x3fc00000))) isNum chars
     let model := renderReply fid (parseLines doc)
     if renderReply fid (parseLines doc') != model || doc.length != doc'.length then
-      pure { model := "token-table-incomplete", agree := false, spec := "na" }
+      pure ("token-table-incomplete", fun _ => "na")
     else
     let want := (specSpectra doc).map (toI fid)
-    let spec : String :=
+    pure (model, fun impl =>
       match impl with
       | ["panic"] => "bad:panic"
       | ["err"] => if malformed doc then "ok" else "bad:error_on_wellformed_document"
@@ -170,13 +167,70 @@ def handleMgf (args impl : List String) : Option Reply := do
         (match run (list pSpec) rest with
          | none => "na"
          | some got => cmpAll 0 want got)
-      | _ => "bad:unexpected_reply_class"
-    pure (exact model implS spec)
+      | _ => "bad:unexpected_reply_class")
+
+def pRequest : P (Nat × List UInt8 × List (List UInt8 × Option Nat) × List Nat) := do
+  let fid ← nat
+  let raw ← bytes
+  let tbl ← list (do let t ← bytes; let v ← opt nat; pure (t, v))
+  let nums ← list nat
+  pure (fid, raw, tbl, nums)
+
+def handleMgf (args impl : List String) : Option Reply := do
+  let (fid, raw, tblRaw, nums) ← run pRequest args
+  let (model, spec) ← evalDoc fid raw tblRaw nums
+  if model == "token-table-incomplete" then pure { model := model, agree := false, spec := "na" } else
+  pure (exact model (" ".intercalate impl) (spec impl))
+
+/-- `mgffile fid style …` — the document went through a file named by `style` (`.mgf`, `.MGF`, `.mgf.gz`,
+`.MGF.GZ`, `.mgf.Gz`; gzip-compressed where the name says so) and `sage_cloudpath::util::read_spectra`.
+Impl reply: `file <reply of the file route> direct <reply of MgfReader::parse on the same text>`.
+Spec: the file route returns what the direct parse returns (`bad:file_route_differs`; `bad:file_id` when the
+only difference is the file id, or when a spectrum does not carry the request's file id), never panics, and
+the direct part satisfies the ordinary spec. -/
+def handleFile (args impl : List String) : Option Reply := do
+  let ((fid, raw, tblRaw, nums), _style) ← run (do
+    let fid ← nat
+    let style ← nat
+    let raw ← bytes
+    let tbl ← list (do let t ← bytes; let v ← opt nat; pure (t, v))
+    let nums ← list nat
+    pure ((fid, raw, tbl, nums), style)) args
+  let (model, spec) ← evalDoc fid raw tblRaw nums
+  if model == "token-table-incomplete" then pure { model := model, agree := false, spec := "na" } else
+  let model2 := s!"file {model} direct {model}"
+  let implS := " ".intercalate impl
+  let verdict : String :=
+    match impl with
+    | "file" :: rest =>
+      let filePart := rest.takeWhile (· != "direct")
+      let directPart := (rest.dropWhile (· != "direct")).drop 1
+      if filePart == ["panic"] then "bad:panic"
+      else if filePart != directPart then
+        (match filePart, directPart with
+         | "ok" :: f, "ok" :: d =>
+           (match run (list pSpec) f, run (list pSpec) d with
+            | some fs, some ds =>
+              if fs.map (fun x => { x with fid := 0 }) == ds.map (fun x => { x with fid := 0 }) then "bad:file_id"
+              else "bad:file_route_differs"
+            | _, _ => "bad:file_route_differs")
+         | _, _ => "bad:file_route_differs")
+      else
+        (match filePart with
+         | "ok" :: f =>
+           (match run (list pSpec) f with
+            | some fs => if fs.all (·.fid == fid) then spec directPart else "bad:file_id"
+            | none => "na")
+         | _ => spec directPart)
+    | ["panic"] => "bad:panic"
+    | _ => "bad:unexpected_reply_class"
+  pure (exact model2 implS verdict)
 
 def handle (op : String) (args impl : List String) : Option Reply :=
   match op with
   | "mgf" => some ((handleMgf args impl).getD badRequest)
   | "mgfraw" => some ((handleMgf args impl).getD badRequest)
+  | "mgffile" => some ((handleFile args impl).getD badRequest)
   | _ => none
 
 end Sage.C17
